@@ -5,7 +5,7 @@ C03) and not running => some transaction of SpecConf(t) (shared exclusive method
 lifted add_conflict) runs. Designs contain the listed non-conflicts: same callee in different alternatives,
 nonexclusive callee / common ancestor, schedule_before pairs."""
 
-from contracts import corelib
+from contracts import corelib, schedfn
 
 PROPERTY = "C07"
 LEVEL = "proof"
@@ -14,10 +14,12 @@ TECHNIQUE = "contracts on the elaborated netlist of generated designs (real mana
 
 
 def configs(tier):
-    return corelib.design_configs(tier, schedulers=("eager",))
+    return corelib.design_configs(tier, schedulers=("eager",)) + schedfn.configs(tier)
 
 
 def run(cfg, ctx):
+    if cfg.get("kind") == "schedfn":
+        return schedfn.run(PROPERTY, cfg, ctx)
     corelib.run_core(PROPERTY, cfg, ctx)
 
 
@@ -43,7 +45,23 @@ def _patch_before_conflicts():
     MG.TransactionManager._conflict_graph = staticmethod(ns["_conflict_graph"])
 
 
+def _patch_scheduler_blocks_on_requests():
+    import transactron.core.schedulers as S
+    from amaranth import Module, Cat
+
+    def sched(method_map, gr, cc, porder):
+        m = Module()
+        ccl = sorted(cc, key=lambda t: porder[t])
+        for k, transaction in enumerate(ccl):
+            conflicts = [ccl[j].ready & ccl[j].runnable for j in range(k) if ccl[j] in gr[transaction]]
+            m.d.comb += transaction.run.eq(transaction.ready & transaction.runnable & ~Cat(conflicts).any())
+        return m
+
+    S.eager_deterministic_cc_scheduler = sched
+
+
 CANARIES = [
+    {"name": "scheduler_blocks_on_requests_not_grants", "cfg": {"kind": "schedfn", "n": 3, "graphs": [0, 8]}, "patch": _patch_scheduler_blocks_on_requests, "expect": r"scheduler\[.*request_not_granted"},
     {"name": "nonexclusive_ancestor_conflicts", "cfg": {"design": "nonexclusive_ancestor", "scheduler": "eager"}, "patch": _patch_calls_nonexclusive, "expect": r"enabled_but_not_run"},
     {"name": "schedule_before_becomes_conflict", "cfg": {"design": "schedule_before", "scheduler": "eager"}, "patch": _patch_before_conflicts, "expect": r"enabled_but_not_run"},
 ]
